@@ -23,6 +23,11 @@ def reset(sx):
     pass
 
 
+def choose(sx, name, v):
+    """a parameter given as a list is drawn per path"""
+    return sx.pick(name, v) if isinstance(v, list) else v
+
+
 def guarded(sx, entry, allowed, fn, *args, **kw):
     """-> ('ok', result) | ('exc', name of an allowed exception type).  Every
     other Exception is a violation whose label names type, raising function
@@ -73,6 +78,7 @@ def decode_and_show(sx, data, entry):
 
 
 def pdu_decode(sx, n, ptype):
+    n = choose(sx, "n", n)
     data = sx.bytes("d", n)
     fix_ptype(sx, data, ptype)
     return decode_and_show(sx, data, "pdu.decode")
@@ -134,6 +140,7 @@ def dep_pdu_decode(sx, cls, n, header):
     """<cls>.decode(data): data = the class' two code bytes (header) or not,
     then symbolic bytes"""
     k = DEP_PDU[cls]
+    n = choose(sx, "n", n)
     if header:
         data = sx.mkbytes(list(k.PDU_CODE) + list(sx.bytes("d", n)), True)
     else:
@@ -159,6 +166,7 @@ def dep_frame(sx, role, brty, shape, n):
     of a PDU: correct start byte, length byte and code bytes, n symbolic
     bytes behind them"""
     d = dep_role(role, brty)
+    n = choose(sx, "n", n)
     if shape == "raw":
         frame = sx.bytes("f", n, mutable=True)
     else:
@@ -208,6 +216,7 @@ def tt3_command(sx, shape, n):
     command code: correct length byte, code, the emulation's IDm, n symbolic
     bytes"""
     sim, emu = tt3_emulation(sx)
+    n = choose(sx, "n", n)
     if shape == "raw":
         cmd = sx.bytes("c", n, mutable=True)
     else:
@@ -246,6 +255,7 @@ def tt3_dialog(sx, lens):
     listen() (tag.cmd), then send_response() returns the next command"""
     clf = envp.ScriptClf(sx)
     sim, emu = tt3_emulation(sx, clf)
+    lens = choose(sx, "lens", lens) if lens and isinstance(lens[0], list) else lens
     cmds = [sx.bytes("c%d" % i, n, mutable=True) for i, n in enumerate(lens)]
     clf.script = list(cmds[1:])
     cmd = cmds[0]
@@ -443,7 +453,8 @@ def dep_target_tox(sx, brty, shape):
     t = nfc.dep.Target(clf)
     t.target = nfc.clf.LocalTarget(brty)
     t.miu, t.did, t.nad, t.rwt, t.pni, t.cmd = 61, None, None, 0.0003, 1, None
-    clf.script = lazy_items(sx, "q", [[shape], ["timeout"]], lambda: brty, False)
+    shapes = shape if isinstance(shape, list) else [shape]
+    clf.script = lazy_items(sx, "q", [shapes, ["timeout"]], lambda: brty, False)
     st, r = dep_call(sx, "dep.Target.send_timeout_extension", t.send_timeout_extension, 5)
     sx.reach("dep:target-tox-" + st)
     return [st, r]
@@ -613,6 +624,7 @@ def llc_run(sx, role, where, n, ptype, drained):
     run loop of an activated link that has the SAP table above; then the peer
     sends SYMM twice and falls silent"""
     llc = new_llc(sx)
+    n = choose(sx, "n", n)
     frame = sx.bytes("f", n)
     fix_dsap(sx, frame, ADDR[where] if where in ADDR else int(where))
     fix_ptype(sx, frame, ptype)
@@ -740,6 +752,7 @@ def snep_serve(sx, lens, miu_s2c, max_len):
     ml = sx.int("srv.max", 0, 0x20) if max_len == "sym" else 0x100000
     server = GetServer(FakeLLC(link, 's'), max_acceptable_length=ml)
     link.start_server(lambda: server._serve(conn))
+    lens = choose(sx, "lens", lens) if lens and isinstance(lens[0], list) else lens
     frags = [sx.bytes("m%d" % i, n) for i, n in enumerate(lens)]
 
     def body():
@@ -761,6 +774,7 @@ def snep_client(sx, op, lens, end, accept):
     server that answers with arbitrary fragments"""
     nfc.snep.client.SnepError.strerr = envp.SymKeyDict(sx, SNEP_STRERR)
     link, conn, cs = socket_world(sx, 128, 128)
+    lens = choose(sx, "lens", lens) if lens and isinstance(lens[0], list) else lens
     frags = [sx.bytes("m%d" % i, n) for i, n in enumerate(lens)]
 
     def peer():
@@ -798,6 +812,7 @@ def handover_serve(sx, lens, miu_s2c):
     link, conn, cs = socket_world(sx, 2175, miu_s2c)
     server = nfc.handover.server.HandoverServer(FakeLLC(link, 's'))
     link.start_server(lambda: server.serve(conn))
+    lens = choose(sx, "lens", lens) if lens and isinstance(lens[0], list) else lens
     frags = [sx.bytes("m%d" % i, n) for i, n in enumerate(lens)]
 
     def body():
@@ -914,7 +929,7 @@ def connect_llcp(sx, role, shape, where, n):
     tr = Trace()
     if shape == "ok":
         gb = GB_OK
-        frame = sx.bytes("f", n)
+        frame = sx.bytes("f", choose(sx, "n", n))
         fix_dsap(sx, frame, ADDR[where])
         frames = [frame, SYMM, SYMM]
     else:
@@ -979,6 +994,7 @@ def connect_card(sx, lens):
     """clf.connect(card=...) as in examples/tagtool.py emulate; first command
     as listen() reports it (no length byte), then full command frames"""
     tr = Trace()
+    lens = choose(sx, "lens", lens) if isinstance(lens[0], list) else lens
     cmds = [sx.bytes("c%d" % i, n) for i, n in enumerate(lens)]
     env = FuzzReader(sx, tr, cmds)
     dev = RecDevice(sx, env, tr)
@@ -1007,55 +1023,62 @@ def connect_card(sx, lens):
 
 
 # ----------------------------------------------------------------------------
+def chunks(xs, n):
+    xs = list(xs)
+    return [xs[i:i + n] for i in range(0, len(xs), n)]
+
+
 def partitions(tier):
     P = []
     quick = tier == "quick"
     add = lambda name, fn, **kw: P.append(dict(name=name, fn=fn, params=kw))
+    lname = lambda lens: "+".join(map(str, lens)) or "-"
     # (1) pdu.decode
     nmax = 6 if quick else 9
-    for n in range(0, nmax + 1):
-        if n < 2:
-            add("pdu:%d" % n, "pdu_decode", n=n, ptype=None)
-            continue
+    add("pdu:0-3", "pdu_decode", n=[0, 1, 2, 3], ptype=None)
+    for n in range(4, nmax + 1):
         for t in range(16):
             add("pdu:%d:%s" % (n, NAMES[t]), "pdu_decode", n=n, ptype=t)
-    sizes = [[2, 2], [3, 2], [4, 3], [2, 2, 2], [5, 2], [2, "L"], ["L"], [3, "L"]]
+    sizes = [[2, 2], [3, 2], [4, 3], [2, "L"], ["L"], [3, "L"]]
     if not quick:
-        sizes += [[4, 4], [6, 3], [3, 3, 3], [2, 4, 3], [7, 2], [4, "L"], [2, 2, "L"]]
-    for s in sizes:
-        add("agf:" + "+".join(map(str, s)), "pdu_agf", sizes=s)
+        sizes += [[2, 2, 2], [5, 2], [4, 4], [6, 3], [3, 3, 3], [2, 4, 3], [7, 2], [4, "L"],
+                  [2, 2, "L"]]
+    for sz in sizes:
+        add("agf:" + "+".join(map(str, sz)), "pdu_agf", sizes=sz)
     for depth, inner in ((1, 2), (2, 2), (2, 3), (3, 2), (50, 2), (200, 2), (543, 2)):
         add("agf-nested:%d:%d" % (depth, inner), "pdu_agf_nested", depth=depth,
             inner_len=inner)
     # (2) dep decode
     for cls in sorted(DEP_PDU):
         top = 19 if cls.startswith("ATR") else (5 if quick else 7)
-        for n in range(0, top + 1):
-            add("dep-pdu:%s:%d" % (cls, n), "dep_pdu_decode", cls=cls, n=n, header=True)
-        for n in range(0, 4):
-            add("dep-pdu:%s:raw%d" % (cls, n), "dep_pdu_decode", cls=cls, n=n, header=False)
+        add("dep-pdu:%s" % cls, "dep_pdu_decode", cls=cls, n=list(range(0, top + 1)),
+            header=True)
+        add("dep-pdu:%s:raw" % cls, "dep_pdu_decode", cls=cls, n=[0, 1, 2, 3], header=False)
     for role in ("Initiator", "Target"):
         for brty in ("106A", "212F"):
-            for n in range(0, (6 if quick else 8) + 1):
-                add("dep-frame:%s:%s:raw:%d" % (role, brty, n), "dep_frame",
-                    role=role, brty=brty, shape="raw", n=n)
+            add("dep-frame:%s:%s:raw" % (role, brty), "dep_frame", role=role, brty=brty,
+                shape="raw", n=list(range(0, (6 if quick else 8) + 1)))
             sfx = "_RES" if role == "Initiator" else "_REQ"
             for name in ("ATR", "PSL", "DEP", "DSL", "RLS"):
                 ns = list(range(0, 5 if quick else 7))
                 if name == "ATR":
                     ns = [0, 1, 9, 13, 14, 15, 16, 17] if quick else list(range(0, 20))
-                for n in ns:
-                    add("dep-frame:%s:%s:%s:%d" % (role, brty, name, n), "dep_frame",
-                        role=role, brty=brty, shape=name + sfx, n=n)
+                add("dep-frame:%s:%s:%s" % (role, brty, name), "dep_frame",
+                    role=role, brty=brty, shape=name + sfx, n=ns)
     # (2b) dep activation / exchange
     RES = ["timeout", "crc", "raw:0", "raw:3", "DEP:0", "DEP:1", "DEP:2", "DEP:3",
            "ATR:1", "PSL:1", "DSL:0", "RLS:1"]
     RES2 = ["timeout", "crc", "DEP:1", "DEP:2", "DSL:0"]
+    CHEAP = ["timeout", "crc", "raw:0", "raw:3", "ATR:1", "PSL:1", "DSL:0", "RLS:1"]
     for brty in ("106A", "212F"):
-        for first in RES:
-            for did, send_len, miu in ((None, 3, 61), (7, 5, 3)):
+        for did, send_len, miu in ((None, 3, 61), (7, 5, 3)):
+            if quick:
+                add("dep-ix:%s:cheap:%s" % (brty, did), "dep_initiator_exchange", brty=brty,
+                    did=did, send_len=send_len, miu=miu, steps=[CHEAP, ["timeout", "DEP:1"]])
+            for first in (RES if not quick else [x for x in RES if x not in CHEAP]):
                 if did is not None and (first not in ("DEP:1", "DEP:2", "crc", "timeout")
-                                        or (quick and brty == "106A")):
+                                        or (quick and brty == "106A")
+                                        or (quick and first == "DEP:2")):
                     continue
                 steps = [[first], ["timeout", "DEP:1"]] if quick or did is not None else \
                     [[first], RES2, ["timeout", "DEP:1"]]
@@ -1091,16 +1114,21 @@ def partitions(tier):
                 steps=[["timeout", "DEP:1", "DSL:0", "raw:0"]], send_len=2)
         add("dep-ta:%s:no-dep-req" % brty, "dep_target_session", brty=brty, atr="fixed:0",
             first="raw:0", steps=[], send_len=2)
-        for q in ("DEP:0", "DEP:1", "DEP:2", "raw:0", "raw:1", "raw:3", "DSL:0", "timeout", "crc"):
-            add("dep-tox:%s:%s" % (brty, q), "dep_target_tox", brty=brty, shape=q)
+        add("dep-tox:%s" % brty, "dep_target_tox", brty=brty,
+            shape=["DEP:0", "DEP:1", "DEP:2", "raw:0", "raw:1", "raw:3", "DSL:0", "timeout", "crc"])
         for q in REQ:
-            steps = [[q], ["timeout", "DEP:1", "DSL:0", "raw:0"]] if quick else \
-                [[q], REQ2, ["timeout", "DEP:1"]]
+            if quick:
+                steps = [[q], ["timeout", "DEP:1", "DSL:0", "raw:0"] if q[:3] != "DEP" or
+                         brty == "106A" and q in ("DEP:0", "DEP:1") else ["timeout", "DEP:1"]]
+                if q == "DEP:3":
+                    continue
+            else:
+                steps = [[q], REQ2, ["timeout", "DEP:1"]]
             add("dep-tx:%s:%s" % (brty, q), "dep_target_session", brty=brty,
                 atr="fixed:0", first="symm:0", steps=steps, send_len=5)
     # (3) llc activation
     shapes = ["none", "raw:0", "raw:3", "raw:5", "raw:6", "raw:7"] + \
-        ["ffm:%d" % n for n in range(0, (6 if quick else 8) + 1)] + \
+        ["ffm:%d" % n for n in range(0, (5 if quick else 8) + 1)] + \
         ["tlv:1", "tlv:2", "tlv:3", "tlv:4", "tlv:7", "tlv:5", "tlv:0", "tlv:1,255",
          "tlv:1,2", "tlv:2,3", "tlv:3,4", "tlv:4,7", "tlv:1,2,3"]
     if not quick:
@@ -1112,9 +1140,11 @@ def partitions(tier):
             add("llc-act:%s:%s" % (role, shape), "llc_activate", role=role, shape=shape,
                 then_run=shape.startswith("tlv") or shape in ("ffm:3", "ffm:4"))
     # (3) llc run loop
-    nmax = 7 if quick else 9
+    nmax = 6 if quick else 9
     for where in sorted(ADDR) + ["0", "1"]:
-        for n in range(2, nmax + 1):
+        add("llc-run:%s:2-4" % where, "llc_run", role="Target", where=where, n=[2, 3, 4],
+            ptype=None, drained=False)
+        for n in range(5, nmax + 1):
             role = "Initiator" if n % 2 else "Target"
             if where in ("0", "1") and n >= 6:
                 for t in range(16):
@@ -1123,10 +1153,10 @@ def partitions(tier):
             else:
                 add("llc-run:%s:%d" % (where, n), "llc_run", role=role,
                     where=where, n=n, ptype=None, drained=bool(n % 2))
-    for where in ("0", "1"):
-        for n in (0, 1):
-            add("llc-run:%s:%d" % (where, n), "llc_run", role="Target", where=where, n=n,
-                ptype=None, drained=False)
+    add("llc-run:short", "llc_run", role="Target", where="0", n=[0, 1], ptype=None,
+        drained=False)
+    add("llc-run:short-1", "llc_run", role="Initiator", where="1", n=[0, 1], ptype=None,
+        drained=True)
     AG = [[["est", 2, 3], ["est", 3, 12]], [["listen", 4, 4], ["listen", 2, 4]],
           [["est_listen", 3, 12], ["est_listen", 2, 5], ["est_listen", 3, 13]],
           [["ldl", 3, 3], ["ldl", 2, 3], ["raw", 2, 8]], [["connect", 2, 6], ["connect", 3, 7]],
@@ -1139,23 +1169,24 @@ def partitions(tier):
     SL = [[0], [1], [5], [6], [7], [9], [10], [11], [6, 0], [6, 1], [6, 3], [10, 2], [6, 2, 2]]
     if not quick:
         SL += [[12], [14], [6, 6], [8, 1, 1], [6, 0, 2], [10, 4, 1]]
-    for lens in SL:
+    for i, group in enumerate(chunks(SL, 4)):
         for miu, ml in ((128, "big"), (6, "sym")):
-            add("snep-srv:%s:%d" % ("+".join(map(str, lens)), miu), "snep_serve", lens=lens,
-                miu_s2c=miu, max_len=ml)
+            add("snep-srv:%d:%d" % (i, miu), "snep_serve", lens=group, miu_s2c=miu, max_len=ml)
     CL = [[], [0], [1], [5], [6], [7], [6, 1], [6, 0], [8, 2], [6, 2, 2]]
     if not quick:
         CL += [[9], [12], [6, 6], [7, 1, 1]]
     for op in ("put", "get"):
         for lens in CL:
             for end in ("close", "silent"):
-                add("snep-cli:%s:%s:%s" % (op, "+".join(map(str, lens)) or "-", end),
+                if quick and end == "silent" and len(lens) != 1:
+                    continue
+                add("snep-cli:%s:%s:%s" % (op, lname(lens), end),
                     "snep_client", op=op, lens=lens, end=end,
                     accept="sym" if op == "get" else "default")
-    for lens in ([0], [1], [3], [2, 2], [0, 1, 0], [1, 1, 1]) + (() if quick else ([4, 4], [1, 1, 1, 1])):
+    HL = [[0], [1], [3], [2, 2], [0, 1, 0], [1, 1, 1]] + ([] if quick else [[4, 4], [1, 1, 1, 1]])
+    for i, group in enumerate(chunks(HL, 3)):
         for miu in (128, 4):
-            add("ho-srv:%s:%d" % ("+".join(map(str, lens)), miu), "handover_serve",
-                lens=list(lens), miu_s2c=miu)
+            add("ho-srv:%d:%d" % (i, miu), "handover_serve", lens=group, miu_s2c=miu)
     # (6) connect()
     for role in ("initiator", "target"):
         for shape in ("none", "raw:6", "ffm:0", "ffm:3", "ffm:4", "tlv:1", "tlv:2", "tlv:3",
@@ -1163,29 +1194,30 @@ def partitions(tier):
             add("connect-llcp:%s:%s" % (role, shape), "connect_llcp", role=role, shape=shape,
                 where="free", n=0)
         for where in sorted(ADDR):
-            for n in ((2, 3) if quick else (2, 3, 4, 5)):
-                add("connect-llcp:%s:%s:%d" % (role, where, n), "connect_llcp", role=role,
-                    shape="ok", where=where, n=n)
+            add("connect-llcp:%s:%s" % (role, where), "connect_llcp", role=role,
+                shape="ok", where=where, n=[2, 3] if quick else [2, 3, 4, 5])
     for atr in ("any:0", "any:2", "hdr:0", "hdr:14", "valid:0", "valid:3", "fixed:0"):
         add("connect-acm:" + atr, "connect_llcp_acm", atr=atr)
-    for lens in ([1], [5], [9], [5, 0], [5, 1], [5, 6], [9, 10], [5, 2, 6]) + \
-            (() if quick else ([11], [5, 11], [5, 3])):
-        add("connect-card:" + "+".join(map(str, lens)), "connect_card", lens=list(lens))
+    CC = [[1], [5], [9], [5, 0], [5, 1], [5, 6], [9, 10], [5, 2, 6]] + \
+        ([] if quick else [[11], [5, 11], [5, 3]])
+    for i, group in enumerate(chunks(CC, 3)):
+        add("connect-card:%d" % i, "connect_card", lens=group)
     # (4) type 3 tag emulation
-    for n in range(0, (6 if quick else 8) + 1):
+    add("tt3:raw:0-4", "tt3_command", shape="raw", n=[0, 1, 2, 3, 4])
+    for n in range(5, (6 if quick else 8) + 1):
         add("tt3:raw:%d" % n, "tt3_command", shape="raw", n=n)
     for code in ("04", "06", "08", "0C", "0A"):
-        for n in range(0, (4 if quick else 6) + 1):
+        add("tt3:%s:0-2" % code, "tt3_command", shape=code, n=[0, 1, 2])
+        for n in range(3, (4 if quick else 6) + 1):
             add("tt3:%s:%d" % (code, n), "tt3_command", shape=code, n=n)
     for code in (6, 8):
         for nserv, nblk, tail in ((1, 0, 0), (1, 1, 0), (1, 2, 0), (1, 3, 0), (2, 2, 0),
                                   (1, 2, 16), (1, 3, 16), (1, 4, 17), (2, 5, 32)):
-            if code == 6 and tail:
+            if code == 6 and tail or quick and nserv == 2 and tail:
                 continue
             add("tt3-rw:%02x:%d:%d:%d" % (code, nserv, nblk, tail), "tt3_rw",
                 code=code, nserv=nserv, nblk=nblk, tail=tail)
-    for lens in ([6, 6], [6, 0], [6, 1], [10, 10], [6, 3, 6]):
-        add("tt3-dialog:" + "+".join(map(str, lens)), "tt3_dialog", lens=lens)
+    add("tt3-dialog", "tt3_dialog", lens=[[6, 6], [6, 0], [6, 1], [10, 10], [6, 3, 6]])
     return P
 
 
